@@ -85,23 +85,25 @@ func (p *Profile) activated(jdk string, os ActivationOS) (bool, error) {
 	act := p.Activation
 	res := false
 	if act.JDK != "" {
-		c, err := semver.Maven.ParseConstraint(string(act.JDK))
-		if err != nil {
-			return false, err
-		}
-		if c.IsSimple() {
-			// A profile should be active when the JDK version is of
-			// the same major and minor number.
-			// https://maven.apache.org/guides/introduction/introduction-to-profiles.html#jdk
-			cmp, diff, err := semver.Maven.Difference(string(act.JDK), jdk)
+		spec := string(act.JDK)
+		switch {
+		case strings.HasPrefix(spec, "!"):
+			// A negated version: active unless the JDK version starts with it.
+			if strings.HasPrefix(jdk, spec[1:]) {
+				return false, nil
+			}
+		case strings.HasPrefix(spec, "[") || strings.HasPrefix(spec, "("):
+			c, err := semver.Maven.ParseConstraint(spec)
 			if err != nil {
 				return false, err
 			}
-			if cmp > 0 || (cmp < 0 && (diff == semver.DiffMajor || diff == semver.DiffMinor)) {
+			if !c.Match(jdk) {
 				return false, nil
 			}
-		} else {
-			if !c.Match(jdk) {
+		default:
+			// A plain version is a prefix: 1.4 is active for 1.4.0_08 and 1.4.2_07.
+			// https://maven.apache.org/guides/introduction/introduction-to-profiles.html#jdk
+			if !strings.HasPrefix(jdk, spec) {
 				return false, nil
 			}
 		}
